@@ -29,7 +29,16 @@ func lookupIntrinsic(fn *ssa.Function, name string) intrinsic {
 	n := fn.Name()
 	if len(n) > 1 && n[0] == 'v' && n[1] >= 'A' && n[1] <= 'Z' && fn.Signature.Recv() == nil {
 		if h, ok := harnessPrims[n]; ok {
-			return h
+			if n == "vSymbolic" || n == "vTier" {
+				return h
+			}
+			return func(in *Interp, fn *ssa.Function, a []Value, s ssa.Instruction) (Value, bool) {
+				if in.spec > 0 {
+					// harness primitives act on the path condition: never inside a merged arm
+					panic(&specAbort{"harness primitive in arm"})
+				}
+				return h(in, fn, a, s)
+			}
 		}
 	}
 	return nil
